@@ -583,3 +583,67 @@ func sortedFiles(m map[string]string) []string {
 func init() {
 	h.PropIsolated("coverage_transparent_exact", 2400, 40000, genCase, run)
 }
+
+// ---------------------------------------------------------------------------
+// a statement list that continues in the next -f file (KF-C18-2)
+
+type SpanCase struct {
+	A string `json:"a"` // first program file
+	B string `json:"b"` // second program file: continues the statement list A leaves open
+}
+
+func enumSpan(thorough bool, yield func(SpanCase) bool) {
+	for _, c := range []SpanCase{
+		{"BEGIN {\n  print 1\n", "  print 2\n}\n"},
+		{"BEGIN {\n  x = 1\n  y = 2\n", "  z = 3\n  print x, y, z\n}\n"},
+		{"function f(a) {\n  a = a + 1\n", "  return a\n}\nBEGIN { print f(1) }\n"},
+		{"{ n++\n", "  m += 2 }\nEND { print n, m }\n"},
+		{"BEGIN {\n  if (1) {\n    print 1\n", "    print 2\n  }\n}\n"},
+	} {
+		if !yield(c) {
+			return
+		}
+	}
+}
+
+func runSpan(x *h.Ctx, c SpanCase) string {
+	dir := h.TempDir("c18s")
+	defer os.RemoveAll(dir)
+	os.WriteFile(filepath.Join(dir, "a.awk"), []byte(c.A), 0o644)
+	os.WriteFile(filepath.Join(dir, "b.awk"), []byte(c.B), 0o644)
+	r := runCLI(dir, []string{"-coverprofile", "cover.out", "-covermode", "count", "-f", "a.awk", "-f", "b.awk"}, "x\n", nil)
+	if r.status != 0 {
+		x.Discard("run failed")
+		return ""
+	}
+	data, err := os.ReadFile(filepath.Join(dir, "cover.out"))
+	if err != nil {
+		return "no coverage profile was written"
+	}
+	lines := map[string]int{"a.awk": strings.Count(c.A, "\n"), "b.awk": strings.Count(c.B, "\n")}
+	for _, l := range strings.Split(strings.TrimSpace(string(data)), "\n")[1:] {
+		m := profLineRE.FindStringSubmatch(l)
+		if m == nil {
+			return "malformed profile line " + l
+		}
+		l1, _ := strconv.Atoi(m[2])
+		c1, _ := strconv.Atoi(m[3])
+		l2, _ := strconv.Atoi(m[4])
+		c2, _ := strconv.Atoi(m[5])
+		n := lines[filepath.Base(m[1])]
+		if l1 < 1 || l2 < 1 || l1 > n || l2 > n || !(l1 < l2 || l1 == l2 && c1 < c2) {
+			if h.KFOpen("KF-C18-2") {
+				// the block's statements lie in two -f files: the end line is numbered within the second file
+				x.Excluded("KF-C18-2")
+				return ""
+			}
+			return fmt.Sprintf("a block whose statements lie in two -f files is reported as %s: not inside the named file with its start before its end\n--- a.awk:\n%s--- b.awk:\n%s", l, c.A, c.B)
+		}
+	}
+	x.Nontrivial("")
+	return ""
+}
+
+func init() {
+	h.EnumSample("statement_list_continues_in_next_file", enumSpan, runSpan)
+}
